@@ -298,7 +298,7 @@ def r_esc(prog, tier):
                                           if early else 'evaluated after the mapping', construct='esc-brackets-label-local',
                                           line=cfg.nodes[dn].lineno))
     if found == 0:
-        raise Unrecognised('write_brackets_subtree writes no token')
+        raise Unrecognised('write_brackets_subtree writes no token', partial=obs)
     return obs, {'xml_string_sinks': nsinks}
 
 
@@ -435,7 +435,7 @@ def r_vocab(prog, tier):
                 elif n.func.attr == 'get':
                     r_attrs.add(const_str(n.args[0]))
     if len(r_elems) < 6 or len(r_attrs) < 6:
-        raise Unrecognised('TIGER-XML reader vocabulary not found (%s / %s)' % (sorted(r_elems), sorted(r_attrs)))
+        raise Unrecognised('TIGER-XML reader vocabulary not found (%s / %s)' % (sorted(r_elems), sorted(r_attrs)), partial=obs)
     for e in sorted(r_elems):
         obs.append(Ob('R-VOCAB', 'treeoutput.tigerxml', 'element <%s> the reader looks for is written by the writer' % e,
                       True if e in w_elems else (None if w_open else False), 'writer elements %s' % sorted(w_elems),
@@ -497,7 +497,7 @@ def r_tabs(prog, tier):
     f = prog.func('treeoutput', 'export_tabs')
     rets = [n for n in walk_own(f.node) if isinstance(n, ast.Return)]
     if not rets:
-        raise Unrecognised('export_tabs has no return')
+        raise Unrecognised('export_tabs has no return', partial=obs)
     for r in rets:
         v = r.value
         s = const_str(v) if v is not None else None
@@ -564,6 +564,11 @@ def r_guard(prog, tier):
                                  if (prog.callee(c_[1], f) or ('?',))[0] not in ('treeanalysis', 'trees', 'treeoutput')]:
                     verdict = None
                     why = 'guard %s not recognised' % (related[:1] or 'delegated to a helper')
+                    if related and all(any(isinstance(t, str) and 'gap_type(%s)' % tree in t for t in fa[1:]) for fa in related) \
+                            and any(isinstance(x_, ast.Call) and prog.callee(x_, f) == ('treeanalysis', 'gap_type') for x_ in walk_own(f.node)):
+                        verdict = False
+                        why = 'the guard asks treeanalysis.gap_type(%s), which looks at the root and its children only: a tree whose ' \
+                              'discontinuous constituents sit deeper passes and is written as a scrambled bracketing' % tree
             obs.append(Ob('R-GUARD/BRACKETS', f.fq, 'output `%s` happens only for a tree of gap degree 0' % unparse(sub)[:50],
                           verdict, why, construct='guard-br:' + unparse(sub)[:50], line=n.lineno))
         raises = [n for n in cfg.eval_nodes() if n.kind == 'stmt' and isinstance(n.ast, ast.Raise)]
